@@ -51,8 +51,9 @@ def module_source(funcs):
     """funcs: list of dict(name, sig, ignore, kind in plain|method|async)"""
     out = ["from vlib.memhist_support import _log, _t\n\n"]
     meth = [f for f in funcs if f["kind"] == "method"]
+    cmeth = [f for f in funcs if f["kind"] == "classmethod"]
     for f in funcs:
-        if f["kind"] == "method":
+        if f["kind"] in ("method", "classmethod"):
             continue
         src = gen_sig.source(f["sig"], f["name"], is_async=f["kind"] == "async", body=body_for(f["name"], f["sig"], f["ignore"]))
         out.append(src + "\n\n")
@@ -60,10 +61,16 @@ def module_source(funcs):
         out.append("class Holder:\n    def __init__(self, tag):\n        self.tag = tag\n\n")
         for f in meth:
             out.append(gen_sig.source(f["sig"], f["name"], method=True, body=body_for(f["name"], f["sig"], f["ignore"], method=True)) + "\n")
+    if cmeth:
+        # classmethods inherited by two classes: one function id, one source text - the class is part of the arguments
+        out.append("\n\nclass Base:\n    tag = 'Base'\n\n")
+        for f in cmeth:
+            out.append("    @classmethod\n" + gen_sig.source(f["sig"], f["name"], method=True, body=body_for(f["name"], f["sig"], f["ignore"], method=True)) + "\n")
+        out.append("\nclass Left(Base):\n    tag = 'h0'\n\n\nclass Right(Base):\n    tag = 'h1'\n")
     return "".join(out)
 
 
-def gen_binding(rng, sig, values=None):
+def gen_binding(rng, sig, values=None, method=False):
     """choose what every parameter is bound to: ('default',) or ('value', spec); extra positionals; extra keywords"""
     values = values or VALUES
     b = {}
@@ -82,7 +89,10 @@ def gen_binding(rng, sig, values=None):
     extra_kw = {}
     if any(s[0] == "W" for s in sig) and rng.random() < 0.6:
         # surplus keywords; a keyword may legally repeat the NAME of a positional-only parameter (it lands in **kw)
-        names = ["zz", "yy", "aa"] + [s[1] for s in sig if s[0] == "P"] * 2
+        # ... and any other name is a legal surplus keyword too, e.g. the names the wrapper's own methods use
+        names = ["zz", "yy", "aa", "self", "args", "func"] + [s[1] for s in sig if s[0] == "P"] * 2
+        if method and not any(s[0] == "P" for s in sig):
+            names.remove("self")      # 'self' is positional-or-keyword there: Python rejects the keyword
         for k in set(rng.sample(names, min(len(names), rng.randint(1, 2)))):
             extra_kw[k] = rng.choice(values)
     return dict(b=b, extra_pos=extra_pos, extra_kw=extra_kw)
@@ -201,7 +211,7 @@ def build_case(rng, sigs, with_ignore, nfuncs=5, ncalls=40, nproc=1):
     funcs = []
     for i in range(nfuncs):
         sig = rng.choice(sigs)
-        kind = rng.choice(["plain", "plain", "plain", "method", "async"])
+        kind = rng.choice(["plain", "plain", "plain", "method", "async", "classmethod"])
         ign = []
         if with_ignore and sig and rng.random() < 0.6:
             ign = rng.choice(all_ignores(sig))
@@ -210,7 +220,7 @@ def build_case(rng, sigs, with_ignore, nfuncs=5, ncalls=40, nproc=1):
     for _ in range(ncalls):
         fi = rng.randrange(nfuncs)
         f = funcs[fi]
-        b = gen_binding(rng, f["sig"])
+        b = gen_binding(rng, f["sig"], method=f["kind"] in ("method", "classmethod"))
         variants = [b]
         tw = twin_binding(rng, b)
         if tw is not None:
